@@ -459,6 +459,7 @@ fn e2e_path(tag: &str) -> String {
         "z_0_2_t12" => format!("zero::{tag}"),
         "s1_t2" | "s2_plain" | "s3_t3" | "s4_t12" => format!("sib::{tag}"),
         "vtune_grp" => format!("vgrp::{tag}"),
+        "vskip_grp" => format!("vsgrp::{tag}"),
         _ => tag.to_string(),
     };
     format!("hx_loop_e2e::{rel}")
@@ -467,6 +468,7 @@ fn e2e_path(tag: &str) -> String {
 /// Case: `bench=<tag> via=<cli|env|attr|attr+cli-n|builder|builder+env-n|builder+env-s> mode=<b|t> n=<n|-> s=<s> threads=<a,b,..>
 /// [mx=0] [bn=<builder count overridden by the environment>] [bs=..] [start=<main|api-test|api-bench|args-..>] [arg=<case below the benchmark>] [nomark=1] [with=<siblings run along>]
 /// [maxs=<secs>] [mins=<secs>] [tvia=cli|env] [skipx=1] [vcost=<ticks per call on the virtual clock>] [timer=os|tsc] [prec=<precision ps>]
+/// [bskip=0|1 border=sf|mf: builder skip_ext_time] [vgen=<ticks per generated input>] [eskip=<effective skip, for the model>]
 /// [evlog=1: append the round sizes and the history read from the dumped event log]` (the
 /// effective values; `via` says where they are given).  Output: per thread
 /// count `t=T samples=.. iters=.. calls=<per thread index>` joined by `;`.
@@ -542,6 +544,15 @@ fn run_e2e(line: &str) -> String {
             cmd.arg("--skip-ext-time");
         }
     }
+    // `bskip=0|1`: `Divan::skip_ext_time(false|true)` by the builder, before (`border=sf`) or after the time limits
+    if get("bskip") != "-" {
+        let call = format!("skip_ext_time={}", if get("bskip") == "1" { "true" } else { "false" });
+        // (empty calls between `;` are ignored by the binary)
+        builder_time = if get("border") == "sf" { format!("{call};{builder_time}") } else { format!("{builder_time};{call}") };
+    }
+    if get("vgen") != "-" {
+        cmd.env("HX_VGEN", get("vgen"));
+    }
     if get("prec") != "-" {
         cmd.env("HX_PREC", get("prec"));
     }
@@ -577,7 +588,7 @@ fn run_e2e(line: &str) -> String {
             if bn != "-" {
                 spec.push_str(&format!(";sample_count={bn}"));
             }
-            builder_time = format!("{spec}{builder_time}");
+            builder_time = format!("{spec};{builder_time}");
             if via == "builder+env-n" {
                 cmd.env("DIVAN_SAMPLE_COUNT", get("n"));
             } else if via == "builder+env-s" {
@@ -619,7 +630,11 @@ fn run_e2e(line: &str) -> String {
     let stdout = h_out.join().unwrap_or_default();
     let stderr = h_err.join().unwrap_or_default();
     if !status.success() {
-        return format!("crash rc={}", status.code().unwrap_or(-1));
+        // the panic message, if any, helps to read a replay (no addresses or timings in it)
+        let why = stderr.lines().find(|l| l.contains("panicked at")).map(|_| {
+            stderr.lines().skip_while(|l| !l.contains("panicked at")).nth(1).unwrap_or("").replace(' ', "_")
+        });
+        return format!("crash rc={} {}", status.code().unwrap_or(-1), why.unwrap_or_default()).trim_end().to_string();
     }
     let threads: Vec<usize> = get("threads").split(',').map(|t| t.parse().expect("threads")).collect();
     // table rows: `<tree> name  fastest │ slowest │ median │ mean │ samples │ iters`
@@ -781,7 +796,7 @@ fn run_e2e(line: &str) -> String {
 
 fn dispatch(mode: &str, line: &str) -> String {
     match mode {
-        "c03e2e" | "c04cli" | "c04os" | "c19cli" => run_e2e(line),
+        "c03e2e" | "c04cli" | "c04os" | "c19cli" | "c04ev" => run_e2e(line),
         "c03" | "c04" | "c19" | "loop" => run_case(line),
         _ => panic!("unknown mode {mode}"),
     }
